@@ -57,7 +57,7 @@ def leaf(rnd, pid, flavour=None, gate=False):
     if gate:
         program = [["gate", "g-" + pid, 3.0]] + program
     # the payload as a plain function, a lambda, a wrapped function, a partial, a callable object or a bound method
-    how = rnd.choice(["function", "function", "function", "lambda", "wrapped", "partial", "object", "method", "prefixed", "marked", "unhashable"])
+    how = rnd.choice(["function", "function", "function", "lambda", "wrapped", "partial", "object", "method", "prefixed", "marked", "unhashable", "nomodule"])
     return {"id": pid, "flavour": flavour, "program": program, "args": a, "kwargs": k, "cleanup": {"kind": "none"}, "callable": how}
 
 
